@@ -12,7 +12,21 @@ NOTE_XH = 'Trusted: CrossHair 0.0.110 + z3 5.1.0 (path feasibility), CPython 3.1
           '(engine.io fakes written from python-engineio 4.14.0, opaque JSON text, null logger); claim holds only ' \
           'within the bounds stated in the evidence.'
 
+NOTE_BSX = 'Trusted: z3 5.1.0 (QF_LIA), CPython 3.12; the bsx proxies (validated on every run by pushing the spec ' \
+           'examples and the repository\'s own test frames through real str and BStr and comparing); JSON text is an ' \
+           'arbitrary symbolic string constrained only in its first character; bounds as stated in the evidence.'
+
 CLAIMS = {
+    'C01': dict(
+        text='The real bytecode of Packet.encode/decode runs on bounded symbolic strings; every path is closed by a z3 '
+             'validity query. Round trip and exact equality with a specification-derived encoder for every packet type x '
+             'namespace x id x payload text within the frame length bound, and differential decoding of completely '
+             'arbitrary frames against a specification-derived decoder; payload trees with bytes leaves (placeholder '
+             'numbering, attachment order, add_attachment completion, bytes only on EVENT/ACK) by solver-enumerated '
+             'shapes. Exhaustive within the stated lengths/depths; beyond them nothing is claimed.',
+        ref='5 C01', engine='xh+bsx', note=NOTE_BSX,
+        technique='symbolic execution of the real codec bytecode on bounded symbolic strings (z3 validity queries) + '
+                  'CrossHair shape enumeration for payload trees'),
     'C13': dict(
         text='Exhaustive (within the palette) symbolic execution of the real _trigger_event/_get_event_handler/'
              '_get_namespace_handler/trigger_event of all four classes against a six-step reference resolution: all 2^6 '
